@@ -8,6 +8,24 @@ VERIF = os.path.dirname(os.path.dirname(os.path.abspath(__file__)))
 ALL = [f"C{i:02d}" for i in range(1, 21)]
 
 CHECKS = {
+    "C07": dict(
+        category="fault_enumeration",
+        technique="fault enumeration: every applicable (defect class, seeding position) pair on valid base programs, expected diagnostic derived from the seeding",
+        text=("Valid part: the canonical corpus, programs using each bundled intrinsic module (with and without ONLY) and every "
+              "generated structure tree of C04 up to a node budget must publish no error-severity diagnostic. Seeded part: 16 "
+              "seeders for the 15 defect classes of the statement rewrite a base program (canonical corpus and small structure "
+              "trees) at every applicable position — duplicate each declaration, declare each host variable in each contained "
+              "procedure, replace the END of each block construct by a bare END, USE an unknown module in each unit and "
+              "procedure, declare an object of a project type that is not accessible, delete each dummy's declaration, add an "
+              "INTENT non-argument, double each CONTAINS, put CONTAINS/IMPLICIT/PUBLIC/PRIVATE in each file-level gap, IMPORT "
+              "outside interface bodies, USE after each IMPLICIT, a procedure before each CONTAINS, a procedure inside each "
+              "type/block, drop the implementation of a deferred binding, lengthen each assignment line — and the published "
+              "diagnostics must contain one of that class, with its severity, on a line of the offending set, and no error of "
+              "another class."),
+        note=("Trusted: the line-structure scanner and seeders in vf/checks/c07.py; base programs are valid per gfortran. "
+              "Where the defect is a relation between two statements either statement's line is accepted."),
+        design="DESIGN.md §4 C07",
+    ),
     "C06": dict(
         category="exploration",
         technique="bounded-exhaustive enumeration of occurrence-pattern programs x scope shapes x names with a source map; every entity from every occurrence; rename applied and re-indexed",
